@@ -309,6 +309,8 @@ class Ops:
                 poly = None
         kind = self.result_kind(a, b, opname)
         dtype = self.promote(a.dtype, b.dtype)
+        if dtype == "Py" and kind in ("tensor", "ndarray"):
+            dtype = a.dtype if not a.is_py else b.dtype  # a tensor combined with a python number keeps the tensor's dtype class
         if opname == "div" and kind in ("pyint",):
             kind = "pyfloat"
         if opname == "div" and dtype in ("Int", "Bool"):
